@@ -2,7 +2,7 @@
 (***************************************************************************)
 (* Conformance of writer::csv::write_writer with Csv.tla.                  *)
 (* One event per step of a case: New (fresh workbook with n sheets),       *)
-(* SetCell, SetActive, Export.  The specification state (book, active) is  *)
+(* SetCell, RemoveCell, SetActive, Export.  The specification state (book, active) is  *)
 (* advanced with the specification's own Post_ operators; an Export event  *)
 (* carries the options, the projection of the real workbook (every sheet's *)
 (* cells through public getters) and the projection of the written bytes   *)
@@ -89,6 +89,12 @@ Step(e) ==
              /\ active' = active
              /\ IF want = << >> THEN Mismatch(l, <<"gen", "empty value">>)
                 ELSE IF ok THEN TRUE ELSE Mismatch(l, <<"impl", "SetCell", e.outcome>>)
+    [] e.a = "RemoveCell" ->
+         LET had == <<e.r, e.c>> \in DOMAIN book[e.s]
+             ok  == e.outcome = "ok" /\ e.removed = had /\ ~e.present
+         IN  /\ book' = Post_BookRemoveCell(book, e.s, e.r, e.c)
+             /\ active' = active
+             /\ IF ok THEN TRUE ELSE Mismatch(l, <<"impl", "RemoveCell", e.outcome>>)
     [] e.a = "SetActive" ->
          LET ok == e.outcome = "ok" /\ e.active = e.s
          IN  /\ active' = e.s
